@@ -71,6 +71,22 @@ CHECKS = {
         "jobs": [plain("server", "TestC09Exhaustive"), rapid("server", "TestC09Random", 5000, 50000)],
         "assumptions": ["a rejected request must yield exactly one failed item and run no handler; which reason it carries is not constrained"],
     },
+    "C10": {
+        "level": "exploration",
+        "technique": "property-based testing (rapid) over caller histories with generator-owned cancellation instants (yield-point hook between send and recv) against a scripted in-memory server; oracle: own identifier or error",
+        "level_text": "Generated-schedule exploration in real time, event driven: up to four goroutines share one client and issue calls with unique identifiers; each call has a cancellation plan (none, before the call, between send and receive once the server has read the request or has written the reply, short deadline) and a server plan (reply, reply late after the call was abandoned, never reply, close). The window between send and recv is opened by the yield-point hook, which runs on the caller's goroutine and knows which request was sent. Every call must return within 30 s with an error or the response echoing its own identifier; undisturbed calls on a healthy server must succeed.",
+        "level_note": "Interleavings of lock acquisition are left to the scheduler; the 30 s watchdog is a hang verdict only (the driver maps budget time-outs to inconclusive).",
+        "jobs": [dict(rapid("client", "TestC10OwnResponse", 1200, 15000, timeout_s={"quick": 900, "thorough": 1700}), race=True)],
+        "assumptions": [],
+    },
+    "C11": {
+        "level": "fault_enumeration",
+        "technique": "exhaustive fault-point enumeration (every Read/Write index of the exchange x fault kind x follow-up x reachability) inside testing/synctest bubbles, plus rapid-drawn faults on later connections; hang verdict from quiescence, goroutine census",
+        "level_text": "Fault enumeration: for every I/O operation index of connect-time negotiation and two exchanges (7 reads, 3 writes), every failure kind (EOF, closed, reset, short write), the server closing right after each reply and the server vanishing exactly when a request is handed to the write loop (hook), crossed with negotiation on/off, reachability afterwards and five follow-ups, one deterministic execution runs in a synctest bubble: 'the call does not return and nothing can make progress' is a detectable state, so hangs are decided without wall-clock. Oracle: complete own response or error, never two consecutive failed calls on a reachable server, at most 4 transmissions per request, closed means closed, census 0. A rapid job moves the fault to later connections and larger indices.",
+        "level_note": "Single caller (the client serialises calls under one lock; concurrent callers are covered by C10's real-time harness); I/O indices are those of the client end of the in-memory connection.",
+        "jobs": [plain("client", "TestC11Faults", timeout_s={"quick": 600, "thorough": 900}), rapid("client", "TestC11Random", 1500, 10000)],
+        "assumptions": ["an io.Reader/io.Writer fault is sticky: once a connection has failed every later call on it fails too"],
+    },
     "C12": {
         "level": "exploration",
         "technique": "property-based testing (rapid): generated well-formed response messages served by a scripted in-memory server to every fluent call; oracle on the call's result type and on the error text",
